@@ -48,6 +48,7 @@ type worldT struct {
 	futureStart  bool
 	stopped      bool
 	midstop      bool // the stop request arrived in the middle of an activity (at a scheduling point)
+	transient    *world.Fail // a cheap invariant failed between two steps
 	queues       *world.EventQueues
 	ioerr        string // non-empty: a datastore write was made to fail (transient I/O error)
 }
@@ -187,12 +188,31 @@ func startWorld(c *explore.Ctx, futureGenesis bool, daBlock time.Duration, honou
 		}
 		return false
 	}
+	// cheap state invariants between ANY two steps of the loops (the full oracles run at the 500 ms marks)
+	w.sched.OnStep = func() {
+		if w.transient != nil || w.stopped || w.ioerr != "" || w.agg.Fate.Crashed() || w.full.Fate.Crashed() {
+			return
+		}
+		hA, hF := w.agg.Height(), w.full.Height()
+		if hF > hA {
+			w.transient = &world.Fail{Clause: "C02:follows-producer", Msg: fmt.Sprintf("between two steps (scheduler step %d, last: %s): full node is at height %d, the sequencer node at %d", w.sched.Steps, w.sched.Last(), hF, hA)}
+		}
+		if inc := w.agg.M.GetDAIncludedHeight(); inc > hA {
+			w.transient = &world.Fail{Clause: "C07:not-above-chain-height", Msg: fmt.Sprintf("between two steps (scheduler step %d, last: %s): sequencer node reports DA-included height %d, its chain height is %d", w.sched.Steps, w.sched.Last(), inc, hA)}
+		}
+		if inc := w.full.M.GetDAIncludedHeight(); inc > hF {
+			w.transient = &world.Fail{Clause: "C07:not-above-chain-height", Msg: fmt.Sprintf("between two steps (scheduler step %d, last: %s): full node reports DA-included height %d, its chain height is %d", w.sched.Steps, w.sched.Last(), inc, hF)}
+		}
+	}
 	w.sched.Drain()
 	return w, nil
 }
 
 // invariants checks C01/C02/C06/C07 on the current state of both nodes.
 func (w *worldT) invariants() *world.Fail {
+	if w.transient != nil && w.ioerr == "" {
+		return w.transient
+	}
 	if w.ioerr != "" {
 		return nil // after an injected I/O error a loop may legitimately report a fatal error; only stopping is checked
 	}
